@@ -200,7 +200,8 @@ func (ce *constEval) zero(t types.Type) *cv {
 		}
 		return out
 	}
-	return cvU
+	// a cell of its own: a later store through a pointer to it must not write the shared unknown
+	return &cv{kind: cvUnknown}
 }
 
 // global: the initial value of a package-level variable, from its declaration (variables that are
@@ -474,7 +475,7 @@ func (ce *constEval) exec(p *Prog, fn *ssa.Function, params map[*ssa.Parameter]*
 			case *ssa.Alloc:
 				env[x] = &cv{kind: cvPtr, p: ce.zero(x.Type().(*types.Pointer).Elem())}
 			case *ssa.Store:
-				if a := val(x.Addr); a.kind == cvPtr && a.p != nil {
+				if a := val(x.Addr); a.kind == cvPtr && a.p != nil && a.p != cvU {
 					*a.p = *val(x.Val)
 				}
 			case *ssa.IndexAddr:
@@ -590,7 +591,7 @@ func (ce *constEval) exec(p *Prog, fn *ssa.Function, params map[*ssa.Parameter]*
 					allKnown := true
 					for i, a := range x.Call.Args {
 						v := val(a)
-						if v.kind != cvInt && v.kind != cvBool {
+						if v.kind == cvUnknown {
 							allKnown = false
 						}
 						hp[h.Params[i]] = v
